@@ -167,7 +167,7 @@ PROPS = {
     },
     "C11": {
         "streams": [
-            {"name": "interrupt", "mode": "interrupt", "quick": 150, "thorough": 3000, "args": []},
+            {"name": "interrupt", "mode": "interrupt", "quick": 800, "thorough": 12000, "args": []},
         ],
         "relevant": c11_relevant,
         "level_text": "Fault enumeration over poll indices tied to the verified acceptors: for each model/procedure the number N of polls of an uninterrupted run is measured, then the run is repeated with should_stop first true at k in {0,1,2,N-1,N, random} (thorough: 40 more): any definitive answer given must be correct (oracle), a best-so-far solution must be a solution; then the same solver+brancher is asked again uninterrupted and must answer correctly. Lean: acceptor soundness; lsu_optimal shows a best-so-far incumbent is always a solution of the original model.",
@@ -215,6 +215,8 @@ PROPS = {
              "args": ["--big", "60", "--mix", "satisfy=2,iterate=2,optimise=1", "--kinds", "linle,lineq,linne,times,div,abs,max,min,elem"]},
             {"name": "bigbounds", "mode": "bounds", "quick": 200, "thorough": 4000,
              "args": ["--big", "60", "--kinds", "linle,lineq,linne,times,div,abs,max,min,elem"]},
+            {"name": "wide", "mode": "answers", "quick": 500, "thorough": 5000,
+             "args": ["--wide", "100", "--big", "60", "--viewpct", "0", "--mix", "satisfy=2,iterate=2,optimise=1", "--kinds", "linle,lineq,linne,max,min,abs"]},
         ],
         "relevant": lambda kind, rec, case: kind != "branchviolation" and kind != "valsel",
         "level_text": "Proof: the 32-bit instantiation of each arithmetic expression (view map, linear bound c-(lb_lhs-lb_i), products of bounds), written operation by operation as in the source, equals unbounded arithmetic exactly under explicit fits32 side conditions (…_exact) and provably differs beyond them (…_partial_witness, decide); div_ceil/div_floor and the view predicate translation are exact for all scales != 0 (View.gePred_sem / lePred_sem). Tie to code: models with huge-but-narrow domains (around ±2^31, ±2^30, ±2^16, ±46341) whose every view value fits i32 are solved with overflow checks on and compared with the oracle over unbounded Int. The full-strength property is FALSE for the unchanged tree (overflow panics at the sites listed as known findings); anything else — a wrong answer, a new file — is a violation.",
